@@ -240,6 +240,17 @@ class C16(Prop):
         m = self._mk_mask(case, hdr)
         m.apply_mask([tuple(r) for r in case["ranges"]])
         m.apply_method(case["method"])
+        # ... and refined further, as a user does: the channel mask accumulates over ALL calls while each component
+        # mask only holds the latest one, so the file must carry the channel mask itself
+        for op, arg in case.get("steps", []):
+            if op == "mask":
+                m.apply_mask([tuple(r) for r in arg])
+            elif op == "method":
+                m.apply_method(arg)
+            else:
+                cust = np.zeros(case["C"], dtype=bool)
+                cust[arg] = True
+                m.apply_funcn(lambda cur, cust=cust: cust)
         fn = m.to_file(str(d / "m.h5"))
         g = RFIMask.from_file(fn)
         arrs = {}
